@@ -901,11 +901,13 @@ void pivoted_gaussian_elimination(const DenseMatrix &A, DenseMatrix &B,
         scale = div(one, B.m_[index * col + i]);
         row_mul_scalar_dense(B, index, scale);
 
-        for (j = i + 1; j < row; j++) {
+        // the pivot row is `index` (not the column counter `i`: they differ
+        // as soon as a column without pivot has been skipped)
+        for (j = index + 1; j < row; j++) {
             for (k = i + 1; k < col; k++)
                 B.m_[j * col + k]
                     = sub(B.m_[j * col + k],
-                          mul(B.m_[j * col + i], B.m_[i * col + k]));
+                          mul(B.m_[j * col + i], B.m_[index * col + k]));
             B.m_[j * col + i] = zero;
         }
 
@@ -945,6 +947,7 @@ void pivoted_fraction_free_gaussian_elimination(const DenseMatrix &A,
 
     unsigned col = A.col_, row = A.row_;
     unsigned index = 0, i, k, j;
+    RCP<const Basic> d; // the previous pivot
     B.m_ = A.m_;
 
     for (i = 0; i < col - 1; i++) {
@@ -959,18 +962,21 @@ void pivoted_fraction_free_gaussian_elimination(const DenseMatrix &A,
             pl.push_back({k, index});
         }
 
-        for (j = i + 1; j < row; j++) {
+        // the pivot is B[index][i] (not B[i][i]) and the divisor is the
+        // previous pivot (not B[i-1][i-1]): they differ as soon as a column
+        // without pivot has been skipped
+        for (j = index + 1; j < row; j++) {
             for (k = i + 1; k < col; k++) {
                 B.m_[j * col + k]
-                    = sub(mul(B.m_[i * col + i], B.m_[j * col + k]),
-                          mul(B.m_[j * col + i], B.m_[i * col + k]));
-                if (i > 0)
-                    B.m_[j * col + k]
-                        = div(B.m_[j * col + k], B.m_[i * col - col + i - 1]);
+                    = sub(mul(B.m_[index * col + i], B.m_[j * col + k]),
+                          mul(B.m_[j * col + i], B.m_[index * col + k]));
+                if (index > 0)
+                    B.m_[j * col + k] = div(B.m_[j * col + k], d);
             }
             B.m_[j * col + i] = zero;
         }
 
+        d = B.m_[index * col + i];
         index++;
     }
 }
